@@ -80,6 +80,17 @@ func c03Table() []GuardReq {
 	r := req("v2-foundation:authorised", V2T, "%T2%.SiacoinInputs[*].Parent.SiacoinOutput.Address", []string{"==", "!="}, "%ST%.FoundationManagementAddress", "the Foundation address changes only when an input controlled by the current management address is spent", "%T2%.NewFoundationAddress != nil")
 	r.Weak = true
 	add(r)
+	// "… authorized by the CURRENT Foundation keys": within a block the current management address is the MidState's
+	// running value (an earlier transaction of the block may have handed it over). Known finding F20: both validators
+	// compare with the pre-block state's addresses.
+	r2 := req("v2-foundation:in-block-current-key", V2T, "%T2%.SiacoinInputs[*].Parent.SiacoinOutput.Address", []string{"==", "!="}, "%MS%.foundationManagement", "a Foundation update is authorised by the management address as it stands when the transaction is validated (after earlier updates of the same block)", "%T2%.NewFoundationAddress != nil")
+	r2.Weak = true
+	add(r2)
+	r1 := req("v1-foundation:in-block-current-key", VT, "call (types.UnlockConditions).UnlockHash(%T1%.SiacoinInputs[*].UnlockConditions)", []string{"==", "!="}, "%MS%.foundation(Subsidy|Management)", "a v1 Foundation update is authorised by a Foundation address as it stands when the transaction is validated (after earlier updates of the same block)", "…")
+	r1.R = strings.Replace(r1.R, regexp.QuoteMeta("(Subsidy|Management)"), "(Subsidy|Management)", 1)
+	r1.Ctx = []string{".*"}
+	r1.Weak = true
+	add(r1)
 	return t
 }
 
